@@ -82,7 +82,7 @@ func layout(t types.Type) []Leaf {
 	case *types.TypeParam:
 		out = []Leaf{{SInt, t, "typeparam"}}
 	default:
-		panic(fmt.Sprintf("layout: unsupported type %v (%T)", t, u))
+		panic(unsupportedErr{fmt.Sprintf("layout: unsupported type %v (%T)", t, u)})
 	}
 	layoutCache[t] = out
 	return out
